@@ -1,4 +1,4 @@
-CONSTANTS EP = {"e1", "e2"}  Models = {"ma"}  Ask = {"ma", "mz"}  Kinds = {"ollama", "vllm"}
+CONSTANTS EP = {"e1", "e2"}  Models = {"ma"}  Ask = {"ma", "mz"}  Kinds = {"ollama", "sglang"}
           Routes = {"proxy", "ollama", "anthropic"}  Ops = {"up", "relist", "health", "req", "list"}  MaxLen = 0
 SPECIFICATION Spec
 VIEW View
